@@ -46,10 +46,84 @@ def _sim_adv(rng, k, dense, rates, zmax=8):
     opts, okw = gens.make_options(rng, RADIAL_DYNAMICS=False, RECOMPUTE_CROSS_SECTIONS=False)
     tmax = float(10 ** rng.uniform(-5, -3))
     sk = {"dense_output": True} if dense else None
-    res = advanced_simulation(dev, tg, t_max=tmax, bg_gases=bg, options=opts, rates=rates, verbose=False, solver_kwargs=sk)
+    # user controls that must reach the solver unchanged (method default Radau unless given)
+    if rng.integers(3) == 0:
+        sk = dict(sk or {}); sk["rtol"] = float(10 ** rng.uniform(-3.5, -3)); sk["atol"] = float(10 ** rng.uniform(-7, -6))
+        if rng.integers(2): sk["method"] = "BDF"
+    sk_given = None if sk is None else dict(sk)
+    # observe the solver call from outside (no source change): what advanced_simulation hands to scipy.integrate.solve_ivp
+    import ebisim.simulation._advanced as _adv
+    cap = {}
+    orig = _adv.solve_ivp
+    def spy(fun, t_span, y0, *a, **kw):
+        r = orig(fun, t_span, y0, *a, **kw)
+        # the callable is evaluated here, while the simulation's thread pool is still alive
+        Y = np.abs(np.asarray(y0, float))[:, None] * (1 + 0.1 * np.random.default_rng(len(y0)).uniform(size=(len(y0), 3)))
+        with np.errstate(all="ignore"):
+            F = np.asarray(fun(0.0, Y.copy()))
+        cap.update(t_span=tuple(t_span), y0=np.array(y0, copy=True), args=a, kwargs=dict(kw), ret=r, Y=Y, F=F)
+        return r
+    _adv.solve_ivp = spy
+    try:
+        nth = int(rng.choice([1, 1, 3]))
+        try:
+            res = advanced_simulation(dev, tg, t_max=tmax, bg_gases=bg, options=opts, rates=rates, verbose=False, solver_kwargs=sk, n_threads=nth)
+        except ValueError as e:
+            # scipy's BDF can step the stiff system into non-finite territory where Radau (the package's default) does not; the property
+            # does not quantify over integrators, so such a case is repeated with the default method
+            import os, pickle
+            if os.environ.get("VERIF_DEBUG"):
+                pickle.dump(dict(dev=dev._asdict(), tg=[t._asdict() for t in tg], bg=[b._asdict() for b in bg], opts=opts._asdict(), tmax=tmax, sk=sk, nth=nth), open("/root/scratch/c18_fail.pkl", "wb"))
+            if not (sk and sk.get("method") == "BDF" and "infs or NaNs" in str(e)): raise
+            sk = {k_: v_ for k_, v_ in sk.items() if k_ != "method"}; sk_given = dict(sk); cap.clear()
+            res = advanced_simulation(dev, tg, t_max=tmax, bg_gases=bg, options=opts, rates=rates, verbose=False, solver_kwargs=sk, n_threads=nth)
+    finally:
+        _adv.solve_ivp = orig
     res = res if isinstance(res, tuple) else (res,)
-    desc = {"device": dkw, "targets": tdesc, "gases": bdesc, "options": {a: b for a, b in okw.items() if isinstance(b, bool)}, "t_max": tmax, "dense": dense, "rates": rates}
+    desc = {"device": dkw, "targets": tdesc, "gases": bdesc, "options": {a: b for a, b in okw.items() if isinstance(b, bool)}, "t_max": tmax, "dense": dense, "rates": rates,
+            "solver_kwargs": sk_given, "n_threads": nth}
+    _CALLS[id(res[0])] = (cap, sk_given, tmax)
     return dev, tg, res, desc
+
+
+_CALLS = {}
+
+
+def check_call(ctx, D, res, m, desc, viol):
+    """the record handed to the solver (`AdvSim.call`): y0 = assembled initial conditions, t_span = (0, t_max), vectorized, method default
+    Radau, user controls unchanged; the callable is the kernel, column by column; the result objects hold the solver's own arrays"""
+    import ebisim.simulation._advanced as _adv
+    cap, sk_given, tmax = _CALLS.pop(id(res[0]), (None, None, None))
+    if not cap:
+        viol("solver_call", "advanced_simulation did not call scipy.integrate.solve_ivp"); return
+    ctx.count("captured_calls")
+    kw = cap["kwargs"]
+    t = D.ask(f"advcall {bits(tmax)} " + ("1 " + (sk_given or {}).get("method") if (sk_given or {}).get("method") else "0"))
+    m_t0, m_t1, m_method, m_vec = dec([t[0]])[0], dec([t[1]])[0], t[2], t[3] == "1"
+    if cap["t_span"] != (m_t0, m_t1) or cap["t_span"] != (0, tmax):
+        viol("solver_call", f"solve_ivp integrates over {cap['t_span']!r}, not (0, t_max) = (0, {tmax!r})")
+    if kw.get("method") != m_method:
+        viol("solver_call", f"solver method {kw.get('method')!r}, expected {m_method!r} (Radau unless the caller chooses)")
+    if bool(kw.get("vectorized")) != m_vec:
+        viol("solver_call", "the right-hand side is not declared vectorized")
+    for k_, v_ in (sk_given or {}).items():
+        if kw.get(k_) != v_:
+            viol("solver_call", f"solver control {k_}={v_!r} reaches solve_ivp as {kw.get(k_)!r}")
+    extra = set(kw) - set(sk_given or {}) - {"method", "vectorized"}
+    if extra:
+        viol("solver_call", f"solve_ivp receives controls the caller did not give: {sorted(extra)}")
+    y0 = _adv._assemble_initial_conditions(res[0].model)
+    if cap["y0"].shape != y0.shape or not np.array_equal(cap["y0"], y0):
+        viol("solver_call", "y0 handed to the solver is not the assembled initial condition")
+    # the callable: a block of states is evaluated column by column by the kernel
+    Y, F = cap["Y"], cap["F"]
+    with np.errstate(all="ignore"):
+        ref = np.stack([_adv._adv_rhs(res[0].model, 0.0, np.ascontiguousarray(Y[:, c])) for c in range(3)], axis=1)
+    if F.shape != ref.shape or not np.array_equal(F, ref, equal_nan=True):
+        viol("solver_call", "the callable handed to the solver is not the right-hand side kernel evaluated column by column")
+    sol = cap["ret"]
+    if res[0].res is not sol:
+        viol("solver_call", "the result object does not hold the solver's own solution object")
 
 
 def _raises(f, *a):
@@ -70,7 +144,17 @@ def query_times(rng, t):
 
 def check_adv(ctx, rng, k, dense, rates, V):
     D = ctx.driver
-    dev, tg, res, desc = _sim_adv(rng, k, dense, rates)
+    for attempt in range(4):
+        try:
+            dev, tg, res, desc = _sim_adv(rng, k, dense, rates)
+            break
+        except ValueError as e:
+            # the integration itself left the domain of the model: with random switches (e.g. recombination cooling without any heating) a
+            # freshly populated state can be driven to the temperature floor, where the Boltzmann factors underflow and scipy's LU
+            # factorisation rejects the non-finite Jacobian.  That is a property of the drawn scenario (outside C03's "temperatures the
+            # grid can resolve"), not of the result objects: draw another scenario; four blow-ups in a row are reported.
+            if "infs or NaNs" not in str(e) or attempt == 3: raise
+            ctx.count("integration_left_domain_redrawn")
     ctx.evaluations += 1
     if len(tg) >= 2: ctx.seen((str(desc["targets"]), dense, rates))
     ctx.count(f"adv_dense{int(dense)}_rates{int(rates)}_k{len(tg)}")
@@ -111,6 +195,8 @@ def check_adv(ctx, rng, k, dense, rates, V):
             bad.add(i)
         if r.t is not sol.t and not np.array_equal(r.t, sol.t):
             viol("own_block", f"target #{i}: stored times differ from the solver's", target=i)
+    # --- the record handed to the solver
+    check_call(ctx, D, res, m, desc, viol)
     # --- first column
     y0 = advcorr.compare_initial(ctx, m, desc)
     if not np.array_equal(sol.y[:, 0], y0) or sol.t[0] != 0:
@@ -259,6 +345,8 @@ def run(ctx):
         try:
             check_adv(ctx, rng, k, d, r, V)
         except (ValueError, IndexError, TypeError, KeyError, AttributeError) as e:
+            import os, traceback
+            if os.environ.get("VERIF_DEBUG"): traceback.print_exc()
             # a comparison that cannot even be carried out (shapes, missing fields): the result object no longer has the modelled layout
             ctx.fail("correspondence", f"result object of advanced_simulation (targets={k}, dense={d}, rates={r}) cannot be compared with the model: {type(e).__name__}: {str(e)[:200]}")
         if len(V) > 10 or len(ctx.failures) > 5: return
